@@ -110,19 +110,29 @@ Definition simple (e : iexp) : bool := match e with ILit _ | ICol _ => true | _ 
 Inductive litcond := CondHasLit | CondIsLit | CondAlways | CondNever.
 Definition cond_holds (c : litcond) (e : iexp) : bool :=
   match c with CondHasLit => has_lit e | CondIsLit => is_lit e | CondAlways => true | CondNever => false end.
-Record shift_cfg := mkShift { sh_cond : litcond; sh_by : Z }.      (* if cond(e): e := e + lit(by) *)
+Record shift_cfg := mkShift { sh_cond : litcond; sh_by : Z; sh_offset : Z }.
+  (* if cond(e): e := e + lit(by);  then Bracket(.., offset = sh_offset) (0 when the argument is absent) *)
 Definition apply_shift (c : shift_cfg) (e : iexp) : iexp := if cond_holds (sh_cond c) e then IAdd e (ILit (sh_by c)) else e.
 
-(** sqlglot's DuckDB generator (Dialect.INDEX_OFFSET = 1, helper.apply_index_offset): an index of integer type is
-    emitted plus one, any other index unchanged *)
-Definition emit_index (e : iexp) : Z := if int_typed e then ieval e + 1 else ieval e.
+(** sqlglot's DuckDB generator (Dialect.INDEX_OFFSET = 1, Generator.bracket_offset_expressions,
+    helper.apply_index_offset): an index of integer type is emitted plus (INDEX_OFFSET - Bracket.offset), any other
+    index unchanged *)
+Definition emit_index (off : Z) (e : iexp) : Z := if int_typed e then ieval e + (1 - off) else ieval e.
 
+(** the hand-made re-basing: minus one on literal-bearing indices, no offset on the Bracket *)
 Definition element_at_cfg_ok (c : shift_cfg) : bool :=
-  match sh_cond c with CondHasLit | CondIsLit => sh_by c =? -1 | _ => false end.
+  match sh_cond c with CondHasLit | CondIsLit => (sh_by c =? -1) && (sh_offset c =? 0) | _ => false end.
+(** the exact shape: the index is passed unchanged and the Bracket says it is already 1-based *)
+Definition element_at_cfg_exact (c : shift_cfg) : bool :=
+  match sh_cond c with CondNever => sh_offset c =? 1 | _ => false end.
+Definition element_at_cfg_good (c : shift_cfg) : bool := element_at_cfg_ok c || element_at_cfg_exact c.
 Definition getitem_cfg_ok (g e : shift_cfg) : bool :=
-  match sh_cond g, sh_cond e with
-  | (CondHasLit | CondIsLit), CondHasLit => (sh_by g =? 1) && (sh_by e =? -1)
-  | _, _ => false
+  match sh_cond g with
+  | CondHasLit | CondIsLit =>
+      (sh_by g =? 1) &&
+      (element_at_cfg_exact e ||
+       match sh_cond e with CondHasLit => (sh_by e =? -1) && (sh_offset e =? 0) | _ => false end)
+  | _ => false
   end.
 
 Section Index.
@@ -150,29 +160,47 @@ Section Index.
   Qed.
 
   Definition duck_element_at (c : shift_cfg) (l : list A) (e : iexp) : option A :=
-    duck_index l (emit_index (apply_shift c e)).
+    duck_index l (emit_index (sh_offset c) (apply_shift c e)).
   Definition duck_getItem (g c : shift_cfg) (l : list A) (e : iexp) : option A :=
     duck_element_at c l (apply_shift g e).
 
-  Theorem element_at_ok : forall c, element_at_cfg_ok c = true ->
-    forall l e, simple e = true -> ieval e <> 0 -> duck_element_at c l e = spark_element_at l (ieval e).
+  (** every index expression, when the Bracket carries offset = 1 *)
+  Theorem element_at_exact : forall c, element_at_cfg_exact c = true ->
+    forall l e, ieval e <> 0 -> duck_element_at c l e = spark_element_at l (ieval e).
   Proof.
-    intros [cond by_] H l e Hs Hz. unfold element_at_cfg_ok in H; simpl in H.
+    intros [cond by_ off] H l e Hz. unfold element_at_cfg_exact in H; simpl in H.
+    destruct cond; try discriminate. assert (off = 1) by lia. subst off.
     unfold duck_element_at, apply_shift; simpl.
     rewrite <- duck_index_is_element_at by exact Hz. f_equal.
-    destruct e as [n|v|v|a b]; try discriminate; destruct cond; try discriminate; simpl; unfold emit_index; simpl; lia.
+    unfold emit_index. destruct (int_typed e); lia.
+  Qed.
+
+  (** literal or plain-column indices, under either shape *)
+  Theorem element_at_ok : forall c, element_at_cfg_good c = true ->
+    forall l e, simple e = true -> ieval e <> 0 -> duck_element_at c l e = spark_element_at l (ieval e).
+  Proof.
+    intros c H l e Hs Hz. unfold element_at_cfg_good in H. apply orb_prop in H as [H|H];
+      [|exact (element_at_exact c H l e Hz)].
+    destruct c as [cond by_ off]. unfold element_at_cfg_ok in H; simpl in H.
+    unfold duck_element_at, apply_shift; simpl.
+    rewrite <- duck_index_is_element_at by exact Hz. f_equal.
+    destruct cond; try discriminate; apply andb_prop in H as [H1 H2];
+      assert (by_ = -1) by lia; assert (off = 0) by lia; subst by_ off;
+      destruct e as [n|v|v|a b]; try discriminate; unfold emit_index; simpl; lia.
   Qed.
 
   Theorem getItem_ok : forall g c, getitem_cfg_ok g c = true ->
     forall l n, 0 <= n -> duck_getItem g c l (ILit n) = spark_getItem l n.
   Proof.
-    intros [gc gb] [cc cb] H l n Hn. unfold getitem_cfg_ok in H; simpl in H.
-    destruct cc; try (destruct gc; discriminate).
-    assert (Hb : gb = 1 /\ cb = -1) by (destruct gc; try discriminate; lia). destruct Hb as [-> ->].
-    unfold duck_getItem, duck_element_at, spark_getItem.
-    assert (E : emit_index (apply_shift (mkShift CondHasLit (-1)) (apply_shift (mkShift gc 1) (ILit n))) = n + 1).
-    { destruct gc; try discriminate; unfold apply_shift, emit_index; simpl; lia. }
-    rewrite E. unfold duck_index.
+    intros [gc gb go] [cc cb co] H l n Hn. unfold getitem_cfg_ok in H; simpl in H.
+    assert (E : emit_index co (apply_shift (mkShift cc cb co) (apply_shift (mkShift gc gb go) (ILit n))) = n + 1).
+    { unfold element_at_cfg_exact in H; cbn [sh_cond sh_by sh_offset] in H.
+      destruct gc; try discriminate; destruct cc; cbn [orb] in H;
+        try (rewrite andb_false_r in H; discriminate);
+        apply andb_prop in H as [Hg He]; try rewrite orb_false_r in He; try apply andb_prop in He as [He1 He2];
+        unfold apply_shift, emit_index;
+        cbn [cond_holds has_lit is_lit int_typed ieval sh_cond sh_by sh_offset andb orb]; lia. }
+    unfold duck_getItem, duck_element_at, spark_getItem. cbn [sh_offset]. rewrite E. unfold duck_index.
     destruct (0 <? n + 1) eqn:E1; [|lia]. destruct (n <? 0) eqn:E2; [lia|]. f_equal. lia.
   Qed.
 End Index.
@@ -189,7 +217,7 @@ Section MinMax.
   Lemma sorted_strong : forall l, StronglySorted Z.le (sort l).
   Proof. intro l. apply Sorted_StronglySorted; [intros x y z; lia | apply sort_sorted]. Qed.
 
-  Theorem array_min_ok : forall c, element_at_cfg_ok c = true -> forall l, l <> [] ->
+  Theorem array_min_ok : forall c, element_at_cfg_good c = true -> forall l, l <> [] ->
     exists m, duck_array_extreme c 1 l = Some m /\ In m l /\ Forall (fun y => m <= y) l.
   Proof.
     intros c H l Hne. unfold duck_array_extreme.
@@ -221,7 +249,7 @@ Section MinMax.
       rewrite Forall_forall in F. apply F. exact Hin.
   Qed.
 
-  Theorem array_max_ok : forall c, element_at_cfg_ok c = true -> forall l, l <> [] ->
+  Theorem array_max_ok : forall c, element_at_cfg_good c = true -> forall l, l <> [] ->
     exists m, duck_array_extreme c (-1) l = Some m /\ In m l /\ Forall (fun y => y <= m) l.
   Proof.
     intros c H l Hne. unfold duck_array_extreme.
@@ -249,24 +277,36 @@ Definition duck_list_position (l : option (list Z)) (v : Z) : option Z :=
 (** Spark array_position: 0 when there is none, NULL on a NULL array *)
 Definition spark_array_position (l : option (list Z)) (v : Z) : option Z :=
   match l with None => None | Some l => Some (match find_pos v l 1 with Some k => k | None => 0 end) end.
-Record pos_cfg := mkPos { pos_default : option Z }.
+Record pos_cfg := mkPos { pos_default : option Z; pos_null_guard : bool }.
+  (* [CASE WHEN col IS NOT NULL THEN] COALESCE(ARRAY_POSITION(col, v), default) [END] *)
 Definition coalesce2 (a d : option Z) : option Z := match a with Some _ => a | None => d end.
 Definition duck_array_position (c : pos_cfg) (l : option (list Z)) (v : Z) : option Z :=
-  coalesce2 (duck_list_position l v) (pos_default c).
+  if pos_null_guard c
+  then match l with None => None | Some _ => coalesce2 (duck_list_position l v) (pos_default c) end
+  else coalesce2 (duck_list_position l v) (pos_default c).
 Definition pos_cfg_ok (c : pos_cfg) : bool := match pos_default c with Some d => d =? 0 | None => false end.
+Definition pos_cfg_exact (c : pos_cfg) : bool := pos_cfg_ok c && pos_null_guard c.
 
 Theorem array_position_ok : forall c, pos_cfg_ok c = true ->
   forall l v, duck_array_position c (Some l) v = spark_array_position (Some l) v.
 Proof.
-  intros [[d|]] H l v; unfold pos_cfg_ok in H; simpl in H; [|discriminate].
+  intros [[d|] g] H l v; unfold pos_cfg_ok in H; simpl in H; [|discriminate].
   assert (d = 0) by lia. subst d. unfold duck_array_position, spark_array_position; simpl.
-  destruct (find_pos v l 1); reflexivity.
+  destruct g; destruct (find_pos v l 1); reflexivity.
 Qed.
-(** the same guard answers 0 for a NULL array, where Spark answers NULL *)
-Theorem array_position_null_array : forall c, pos_cfg_ok c = true ->
+(** with the NULL guard: every array, NULL included *)
+Theorem array_position_exact : forall c, pos_cfg_exact c = true ->
+  forall l v, duck_array_position c l v = spark_array_position l v.
+Proof.
+  intros c H [l|] v.
+  - apply array_position_ok. unfold pos_cfg_exact in H. apply andb_prop in H as [H _]. exact H.
+  - unfold pos_cfg_exact in H. apply andb_prop in H as [_ H]. unfold duck_array_position. rewrite H. reflexivity.
+Qed.
+(** without it the COALESCE answers 0 for a NULL array, where Spark answers NULL *)
+Theorem array_position_null_array : forall c, pos_cfg_ok c = true -> pos_null_guard c = false ->
   forall v, duck_array_position c None v = Some 0 /\ spark_array_position None v = None.
 Proof.
-  intros [[d|]] H v; unfold pos_cfg_ok in H; simpl in H; [|discriminate].
+  intros [[d|] g] H Hg v; unfold pos_cfg_ok in H; simpl in *; [|discriminate]. subst g.
   assert (d = 0) by lia. subst d. split; reflexivity.
 Qed.
 
@@ -318,25 +358,40 @@ Definition round_half_away (n d : Z) : Z :=
 Definition round_half_even (n d : Z) : Z :=
   let q := n / d in let r := n mod d in
   if 2 * r <? d then q else if d <? 2 * r then q + 1 else (if Z.even q then q else q + 1).
-Record rint_cfg := mkRint { ri_prim_is_round : bool; ri_scale : Z }.
-Definition rint_cfg_ok (c : rint_cfg) : bool := ri_prim_is_round c && (ri_scale c =? 0).
+Inductive round_prim := RoundHalfAway | RoundHalfEven.       (* ROUND(x, s)  |  ROUND_EVEN(x, s) *)
+Record rint_cfg := mkRint { ri_prim : round_prim; ri_scale : Z }.
+Definition rint_cfg_ok (c : rint_cfg) : bool := ri_scale c =? 0.
+Definition rint_cfg_exact (c : rint_cfg) : bool :=
+  (ri_scale c =? 0) && match ri_prim c with RoundHalfEven => true | RoundHalfAway => false end.
 Definition duck_rint (c : rint_cfg) (n d : Z) : option Z :=
-  if ri_prim_is_round c && (ri_scale c =? 0) then Some (round_half_away n d) else None.
+  if ri_scale c =? 0
+  then Some (match ri_prim c with RoundHalfAway => round_half_away n d | RoundHalfEven => round_half_even n d end)
+  else None.
 Definition spark_rint (n d : Z) : option Z := Some (round_half_even n d).
 Definition is_tie (n d : Z) : bool := 2 * (n mod d) =? d.
 
 Theorem rint_ok : forall c, rint_cfg_ok c = true ->
   forall n d, 0 < d -> is_tie n d = false -> duck_rint c n d = spark_rint n d.
 Proof.
-  intros c H n d Hd Ht. unfold duck_rint, spark_rint. unfold rint_cfg_ok in H. rewrite H. f_equal.
+  intros [p sc] H n d Hd Ht. unfold duck_rint, spark_rint. unfold rint_cfg_ok in H. simpl in *. rewrite H. f_equal.
+  destruct p; [|reflexivity].
   unfold round_half_away, round_half_even, is_tie in *. cbv zeta.
   destruct (2 * (n mod d) <? d) eqn:E1; [reflexivity|].
   destruct (d <? 2 * (n mod d)) eqn:E2; [reflexivity|]. lia.
 Qed.
-(** on ties the two differ whenever half-away does not land on an even number, e.g. 2.5 and 0.5 *)
-Theorem rint_tie_differs : forall c, rint_cfg_ok c = true ->
+(** ROUND_EVEN: every rational, ties included *)
+Theorem rint_exact : forall c, rint_cfg_exact c = true -> forall n d, duck_rint c n d = spark_rint n d.
+Proof.
+  intros [p sc] H n d. unfold rint_cfg_exact in H; simpl in H. apply andb_prop in H as [H1 H2].
+  unfold duck_rint, spark_rint; simpl. rewrite H1. destruct p; [discriminate | reflexivity].
+Qed.
+(** ROUND: on ties the two differ whenever half-away does not land on an even number, e.g. 2.5 and 0.5 *)
+Theorem rint_tie_differs : forall c, rint_cfg_ok c = true -> ri_prim c = RoundHalfAway ->
   duck_rint c 5 2 = Some 3 /\ spark_rint 5 2 = Some 2 /\ duck_rint c 1 2 = Some 1 /\ spark_rint 1 2 = Some 0.
-Proof. intros c H. unfold duck_rint. unfold rint_cfg_ok in H. rewrite H. repeat split. Qed.
+Proof.
+  intros [p sc] H Hp. simpl in Hp. subst p. unfold duck_rint. unfold rint_cfg_ok in H. simpl in *. rewrite H.
+  repeat split.
+Qed.
 
 (* ------------------------------------------------------------------------------------------------------------ *)
 (** * dayofweek: DAYOFWEEK(d) + shift.  A date is its day number since 1970-01-01 (a Thursday). *)
@@ -468,20 +523,36 @@ Definition dv := option fv.
 Definition isnan3 (a : dv) : option bool := match a with None => None | Some FNaN => Some true | Some _ => Some false end.
 Definition not3 (b : option bool) : option bool := option_map negb b.
 Definition case_when {T} (c : option bool) (t e : T) : T := match c with Some true => t | _ => e end.
-Record nanvl_cfg := mkNanvl { nv_negated : bool; nv_then_is_first : bool }.
+Record nanvl_cfg := mkNanvl { nv_negated : bool; nv_then_is_first : bool; nv_null_guard : bool }.
+  (* CASE WHEN [a IS NULL OR] [NOT] ISNAN(a) THEN .. ELSE .. END *)
+Definition or3 (x y : option bool) : option bool :=
+  match x, y with Some true, _ | _, Some true => Some true | Some false, Some false => Some false | _, _ => None end.
+Definition isnull3 (a : dv) : option bool := Some (match a with None => true | Some _ => false end).
 Definition nanvl_cfg_ok (c : nanvl_cfg) : bool := Bool.eqb (nv_negated c) (nv_then_is_first c).
+Definition nanvl_cfg_exact (c : nanvl_cfg) : bool := nv_negated c && nv_then_is_first c && nv_null_guard c.
 Definition duck_nanvl (c : nanvl_cfg) (a b : dv) : dv :=
-  let cnd := if nv_negated c then not3 (isnan3 a) else isnan3 a in
+  let t := if nv_negated c then not3 (isnan3 a) else isnan3 a in
+  let cnd := if nv_null_guard c then or3 (isnull3 a) t else t in
   if nv_then_is_first c then case_when cnd a b else case_when cnd b a.
 Definition spark_nanvl (a b : dv) : dv := match a with None => None | Some FNaN => b | Some _ => a end.
 Theorem nanvl_ok : forall c, nanvl_cfg_ok c = true -> forall a b, a <> None -> duck_nanvl c a b = spark_nanvl a b.
 Proof.
-  intros [n t] H a b Ha. unfold nanvl_cfg_ok in H; simpl in H. apply eqb_prop in H. subst t.
-  destruct a as [[|z]|]; [| |contradiction]; destruct n; reflexivity.
+  intros [n t g] H a b Ha. unfold nanvl_cfg_ok in H; simpl in H. apply eqb_prop in H. subst t.
+  destruct a as [[|z]|]; [| |contradiction]; destruct n, g; reflexivity.
 Qed.
-Theorem nanvl_null_first : forall c, nanvl_cfg_ok c = true -> nv_negated c = true ->
+(** with the guard `a IS NULL OR NOT ISNAN(a)`: every pair of arguments, NULL included *)
+Theorem nanvl_exact : forall c, nanvl_cfg_exact c = true -> forall a b, duck_nanvl c a b = spark_nanvl a b.
+Proof.
+  intros [n t g] H a b. unfold nanvl_cfg_exact in H; simpl in H.
+  apply andb_prop in H as [H Hg]. apply andb_prop in H as [Hn Ht]. subst n t g.
+  destruct a as [[|z]|]; reflexivity.
+Qed.
+Theorem nanvl_null_first : forall c, nanvl_cfg_ok c = true -> nv_negated c = true -> nv_null_guard c = false ->
   duck_nanvl c None (Some (FFin 1)) = Some (FFin 1) /\ spark_nanvl None (Some (FFin 1)) = None.
-Proof. intros [n t] H Hn. simpl in Hn. subst n. unfold nanvl_cfg_ok in H; simpl in H. destruct t; [|discriminate]. split; reflexivity. Qed.
+Proof.
+  intros [n t g] H Hn Hg. simpl in Hn, Hg. subst n g. unfold nanvl_cfg_ok in H; simpl in H.
+  destruct t; [|discriminate]. split; reflexivity.
+Qed.
 
 (* ------------------------------------------------------------------------------------------------------------ *)
 (** * sequence: GENERATE_SERIES(start, stop, step or <default>) *)
@@ -491,21 +562,42 @@ Definition series (a b st : Z) : list Z :=
   if 0 <? st then (if a <=? b then map (fun k => a + Z.of_nat k * st) (seq 0 (Z.to_nat ((b - a) / st) + 1)) else [])
   else if st <? 0 then (if b <=? a then map (fun k => a + Z.of_nat k * st) (seq 0 (Z.to_nat ((a - b) / (- st)) + 1)) else [])
   else [].
-Definition duck_sequence (default_step : Z) (a b : Z) (st : option Z) : list Z :=
-  series a b (match st with Some s => s | None => default_step end).
+Inductive seq_default :=
+| SeqConst (k : Z)                                    (* a literal default step *)
+| SeqBySign (op : cmpop) (asc desc : Z).              (* CASE WHEN start <op> stop THEN asc ELSE desc END *)
+Definition seq_default_eval (d : seq_default) (a b : Z) : Z :=
+  match d with SeqConst k => k | SeqBySign op asc desc => if cmp_eval op a b then asc else desc end.
+Definition duck_sequence (dflt : seq_default) (a b : Z) (st : option Z) : list Z :=
+  series a b (match st with Some s => s | None => seq_default_eval dflt a b end).
 (** Spark: the default step is 1 if start <= stop, otherwise -1 *)
 Definition spark_sequence (a b : Z) (st : option Z) : list Z :=
   series a b (match st with Some s => s | None => if a <=? b then 1 else -1 end).
-Theorem sequence_ok : forall dflt, (dflt =? 1) = true ->
+Definition seq_cfg_ok (d : seq_default) : bool :=
+  match d with SeqConst k => k =? 1 | SeqBySign op asc desc => cmpop_eqb op CLe && (asc =? 1) end.
+Definition seq_cfg_exact (d : seq_default) : bool :=
+  match d with SeqConst _ => false | SeqBySign op asc desc => cmpop_eqb op CLe && (asc =? 1) && (desc =? -1) end.
+Theorem sequence_ok : forall dflt, seq_cfg_ok dflt = true ->
   forall a b st, (st <> None \/ a <= b) -> duck_sequence dflt a b st = spark_sequence a b st.
 Proof.
-  intros dflt H a b st D. assert (dflt = 1) by lia. subst dflt. unfold duck_sequence, spark_sequence.
-  destruct st as [s|]; [reflexivity|]. destruct D as [D|D]; [congruence|].
-  destruct (a <=? b) eqn:E; [reflexivity | lia].
+  intros dflt H a b st D. unfold duck_sequence, spark_sequence.
+  destruct st as [s|]; [reflexivity|]. destruct D as [D|D]; [congruence|]. f_equal.
+  destruct dflt as [k|op asc desc]; simpl in *.
+  - destruct (a <=? b) eqn:E; lia.
+  - apply andb_prop in H as [H1 H2]. apply cmpop_eqb_eq in H1. subst op. simpl.
+    destruct (a <=? b) eqn:E; lia.
 Qed.
-Theorem sequence_descending_default : forall dflt, (dflt =? 1) = true ->
-  duck_sequence dflt 5 1 None = [] /\ spark_sequence 5 1 None = [5; 4; 3; 2; 1].
-Proof. intros dflt H. assert (dflt = 1) by lia. subst dflt. split; reflexivity. Qed.
+(** with the sign-dependent default: every call *)
+Theorem sequence_exact : forall dflt, seq_cfg_exact dflt = true ->
+  forall a b st, duck_sequence dflt a b st = spark_sequence a b st.
+Proof.
+  intros [k|op asc desc] H a b st; simpl in H; [discriminate|].
+  apply andb_prop in H as [H H3]. apply andb_prop in H as [H1 H2]. apply cmpop_eqb_eq in H1. subst op.
+  unfold duck_sequence, spark_sequence. destruct st as [s|]; [reflexivity|]. f_equal. simpl.
+  destruct (a <=? b); lia.
+Qed.
+Theorem sequence_descending_default : forall k, (k =? 1) = true ->
+  duck_sequence (SeqConst k) 5 1 None = [] /\ spark_sequence 5 1 None = [5; 4; 3; 2; 1].
+Proof. intros k H. assert (k = 1) by lia. subst k. split; reflexivity. Qed.
 
 (* ------------------------------------------------------------------------------------------------------------ *)
 (** * date_add / date_sub with a Python int: a negative count is handed to the other function *)
@@ -538,43 +630,89 @@ Qed.
 (* ------------------------------------------------------------------------------------------------------------ *)
 (** * levenshtein(l, r, threshold): CASE WHEN dist <op> threshold THEN dist ELSE else_ END *)
 
-Record lev_cfg := mkLev { lv_cmp : cmpop; lv_else : Z }.
-Definition lev_cfg_ok (c : lev_cfg) : bool := cmpop_eqb (lv_cmp c) CLe && (lv_else c =? -1).
+Record lev_cfg := mkLev { lv_cmp : cmpop; lv_else : Z; lv_else_cmp : option cmpop }.
+  (* CASE WHEN dist <cmp> t THEN dist  (ELSE else | WHEN dist <else_cmp> t THEN else)  END *)
+Definition lev_cfg_ok (c : lev_cfg) : bool :=
+  cmpop_eqb (lv_cmp c) CLe && (lv_else c =? -1) &&
+  match lv_else_cmp c with None => true | Some o => cmpop_eqb o CGt end.
+Definition lev_cfg_exact (c : lev_cfg) : bool :=
+  lev_cfg_ok c && match lv_else_cmp c with None => false | Some _ => true end.
 Definition duck_levenshtein (c : lev_cfg) (dist : option Z) (thr : Z) : option Z :=
-  case_when (option_map (fun d => cmp_eval (lv_cmp c) d thr) dist) dist (Some (lv_else c)).
+  case_when (option_map (fun d => cmp_eval (lv_cmp c) d thr) dist) dist
+    (match lv_else_cmp c with
+     | None => Some (lv_else c)
+     | Some o => case_when (option_map (fun d => cmp_eval o d thr) dist) (Some (lv_else c)) None
+     end).
 Definition spark_levenshtein (dist : option Z) (thr : Z) : option Z :=
   option_map (fun d => if thr <? d then -1 else d) dist.
 Theorem levenshtein_ok : forall c, lev_cfg_ok c = true ->
   forall d thr, duck_levenshtein c (Some d) thr = spark_levenshtein (Some d) thr.
 Proof.
-  intros [o e] H d thr. unfold lev_cfg_ok in H; simpl in H. apply andb_prop in H as [H1 H2].
+  intros [o e oe] H d thr. unfold lev_cfg_ok in H; simpl in H.
+  apply andb_prop in H as [H H3]. apply andb_prop in H as [H1 H2].
   apply cmpop_eqb_eq in H1. subst o. assert (e = -1) by lia. subst e.
   unfold duck_levenshtein, spark_levenshtein; simpl.
-  destruct (d <=? thr) eqn:E1, (thr <? d) eqn:E2; try lia; reflexivity.
+  destruct oe as [o|]; [apply cmpop_eqb_eq in H3; subst o; simpl|];
+    destruct (d <=? thr) eqn:E1, (thr <? d) eqn:E2; try lia; try reflexivity.
+  destruct (d >? thr) eqn:E3; [reflexivity | lia].
 Qed.
-Theorem levenshtein_null : forall c, lev_cfg_ok c = true ->
+(** with the -1 branch guarded by its own comparison: NULL distances too *)
+Theorem levenshtein_exact : forall c, lev_cfg_exact c = true ->
+  forall dist thr, duck_levenshtein c dist thr = spark_levenshtein dist thr.
+Proof.
+  intros c H [d|] thr.
+  - apply levenshtein_ok. unfold lev_cfg_exact in H. apply andb_prop in H as [H _]. exact H.
+  - unfold lev_cfg_exact in H. apply andb_prop in H as [_ H]. unfold duck_levenshtein, spark_levenshtein.
+    destruct (lv_else_cmp c); [reflexivity | discriminate].
+Qed.
+Theorem levenshtein_null : forall c, lev_cfg_ok c = true -> lv_else_cmp c = None ->
   forall thr, duck_levenshtein c None thr = Some (-1) /\ spark_levenshtein None thr = None.
 Proof.
-  intros [o e] H thr. unfold lev_cfg_ok in H; simpl in H. apply andb_prop in H as [_ H2].
+  intros [o e oe] H He thr. simpl in He. subst oe. unfold lev_cfg_ok in H; simpl in H.
+  apply andb_prop in H as [H _]. apply andb_prop in H as [_ H2].
   assert (e = -1) by lia. subst e. split; reflexivity.
 Qed.
 
 (* ------------------------------------------------------------------------------------------------------------ *)
 (** * unix_millis: CAST(unix_seconds(col) * mult AS BIGINT); a timestamp is its microseconds since the epoch *)
 
+Inductive millis_cfg :=
+| MillisFromSeconds (mult : Z)        (* CAST(unix_seconds(col) * mult AS BIGINT) *)
+| MillisEpochMs.                      (* EPOCH_MS(col) *)
 (** whole seconds between the epoch and the timestamp (DATE_DIFF('SECONDS', epoch, ts)) *)
 Definition duck_unix_seconds (us : Z) : Z := us / 1000000.
-Definition duck_unix_millis (mult : Z) (us : Z) : Z := duck_unix_seconds us * mult.
+(** DuckDB epoch_ms(ts): the microsecond count divided by 1000, truncated toward zero *)
+Definition duck_epoch_ms (us : Z) : Z := Z.quot us 1000.
+Definition duck_unix_millis (c : millis_cfg) (us : Z) : Z :=
+  match c with MillisFromSeconds mult => duck_unix_seconds us * mult | MillisEpochMs => duck_epoch_ms us end.
 Definition spark_unix_millis (us : Z) : Z := us / 1000.
-Theorem unix_millis_ok : forall mult, (mult =? 1000) = true ->
-  forall us, us mod 1000000 = 0 -> duck_unix_millis mult us = spark_unix_millis us.
+Definition millis_cfg_ok (c : millis_cfg) : bool := match c with MillisFromSeconds m => m =? 1000 | MillisEpochMs => true end.
+Definition millis_cfg_exact (c : millis_cfg) : bool := match c with MillisEpochMs => true | _ => false end.
+Theorem unix_millis_ok : forall c, millis_cfg_ok c = true ->
+  forall us, us mod 1000000 = 0 -> duck_unix_millis c us = spark_unix_millis us.
 Proof.
-  intros mult H us Hm. assert (mult = 1000) by lia. subst mult.
-  unfold duck_unix_millis, duck_unix_seconds, spark_unix_millis.
-  pose proof (Z.div_mod us 1000000 ltac:(lia)) as E. rewrite Hm in E.
-  generalize dependent (us / 1000000). intros q E. subst us.
-  replace (1000000 * q + 0) with (q * 1000 * 1000) by lia. rewrite Z.div_mul by lia. reflexivity.
+  intros [mult|] H us Hm; simpl in H.
+  - assert (mult = 1000) by lia. subst mult.
+    unfold duck_unix_millis, duck_unix_seconds, spark_unix_millis.
+    pose proof (Z.div_mod us 1000000 ltac:(lia)) as E. rewrite Hm in E.
+    generalize dependent (us / 1000000). intros q E. subst us.
+    replace (1000000 * q + 0) with (q * 1000 * 1000) by lia. rewrite Z.div_mul by lia. reflexivity.
+  - unfold duck_unix_millis, duck_epoch_ms, spark_unix_millis.
+    pose proof (Z.div_mod us 1000000 ltac:(lia)) as E. rewrite Hm in E.
+    generalize dependent (us / 1000000). intros q E. subst us.
+    replace (1000000 * q + 0) with (q * 1000 * 1000) by lia. rewrite Z.div_mul, Z.quot_mul by lia. reflexivity.
+Qed.
+(** EPOCH_MS: every timestamp at or after the epoch, and every timestamp on a whole millisecond *)
+Theorem unix_millis_exact : forall c, millis_cfg_exact c = true ->
+  forall us, (0 <= us \/ us mod 1000 = 0) -> duck_unix_millis c us = spark_unix_millis us.
+Proof.
+  intros [mult|] H us D; [discriminate|]. unfold duck_unix_millis, duck_epoch_ms, spark_unix_millis.
+  destruct D as [D|D].
+  - apply Z.quot_div_nonneg; lia.
+  - pose proof (Z.div_mod us 1000 ltac:(lia)) as E. rewrite D in E.
+    generalize dependent (us / 1000). intros q E. subst us.
+    replace (1000 * q + 0) with (q * 1000) by lia. rewrite Z.quot_mul by lia. reflexivity.
 Qed.
 Theorem unix_millis_drops_fraction : forall mult, (mult =? 1000) = true ->
-  duck_unix_millis mult 1706708710123456 = 1706708710000 /\ spark_unix_millis 1706708710123456 = 1706708710123.
+  duck_unix_millis (MillisFromSeconds mult) 1706708710123456 = 1706708710000 /\ spark_unix_millis 1706708710123456 = 1706708710123.
 Proof. intros mult H. assert (mult = 1000) by lia. subst mult. split; reflexivity. Qed.
